@@ -259,3 +259,25 @@ _EDITS6 = [
 for _k, _a, _b in _EDITS6:
     assert _a in TEXTS[_k][0], (_k, _a[:40])
     TEXTS[_k] = (TEXTS[_k][0].replace(_a, _b, 1), TEXTS[_k][1])
+
+_EDITS7 = [
+ ("C01", "With a full ring an unforced set may be dropped (C09).",
+  "Over whole histories: for every history with only the default configuration installed, all records reported so far plus what the current batch holds are, "
+  "as a multiset, exactly one record per span per token item of the SubmitSpans commands popped so far (nothing twice, nothing else, nothing popped lost). "
+  "With a full ring an unforced set may be dropped (C09)."),
+ ("C03", "Kernel-checked theorems", "Kernel-checked theorems (incl., over the scheduler: in any reachable state a trace whose SubmitSpans commands and commit were in "
+  "registered threads' rings when a cycle began is reported whole in that cycle's one report and forgotten, for every interleaving of the drain with the threads; a "
+  "SubmitSpans processed by an earlier cycle is held through any history and reported by the cycle that processes the commit)"),
+ ("C08", "Kernel-checked theorems", "Kernel-checked theorems (incl., over the scheduler: a commit or, cancelable, a cancel that is in a registered thread's ring when a "
+  "cycle begins leaves nothing retained after that cycle, in any reachable state and for every interleaving; only the process step and a new reporter touch the retained set)"),
+]
+for _k, _a, _b in _EDITS7:
+    assert _a in TEXTS[_k][0], (_k, _a[:40])
+    TEXTS[_k] = (TEXTS[_k][0].replace(_a, _b, 1), TEXTS[_k][1])
+
+_EDITS8 = [
+ ("C03", "Kernel-checked theorems (incl., over the scheduler", "Kernel-checked theorems (plus an `aged` stream: threads that have traced before and a collector that has run up to 2100 idle cycles, then a trace across two threads) (incl., over the scheduler"),
+]
+for _k, _a, _b in _EDITS8:
+    assert _a in TEXTS[_k][0], (_k, _a[:40])
+    TEXTS[_k] = (TEXTS[_k][0].replace(_a, _b, 1), TEXTS[_k][1])
